@@ -214,12 +214,13 @@ where
     F: Fn(&S::Value) -> CaseOutcome + Sync,
 {
     let shards = 16u32;
-    let results: Vec<(Local, Vec<String>, Option<S::Value>)> = (0..shards)
+    let results: Vec<(Local, Vec<String>, Option<S::Value>, Option<Failure>)> = (0..shards)
         .into_par_iter()
         .map(|sh| {
             let local = std::cell::RefCell::new(Local::default());
             let inconc = std::cell::RefCell::new(Vec::new());
             let first_key: std::cell::RefCell<Option<String>> = std::cell::RefCell::new(None);
+            let first_fail: std::cell::RefCell<Option<Failure>> = std::cell::RefCell::new(None);
             // evaluations still allowed while shrinking (a fixed amount of work; failures that cost a
             // child process per evaluation get a small budget, see mark_expensive)
             let budget = std::cell::Cell::new(u32::MAX);
@@ -264,10 +265,13 @@ where
                         }
                         Ok(())
                     }
-                    CaseOutcome::Fail { key, what, .. } => {
+                    CaseOutcome::Fail { key, what, replay } => {
                         let mut fk = first_key.borrow_mut();
                         match &*fk {
                             None => {
+                                // kept as observed: if the failure depends on what this thread processed before, the
+                                // shrunk case may not fail again on its own and this one is what gets reported
+                                *first_fail.borrow_mut() = Some(Failure { key: key.clone(), what: what.clone(), replay });
                                 *fk = Some(key);
                                 Err(what)
                             }
@@ -278,11 +282,11 @@ where
                     }
                 }
             });
-            (local.into_inner(), inconc.into_inner(), r.map(|(v, _)| v))
+            (local.into_inner(), inconc.into_inner(), r.map(|(v, _)| v), first_fail.into_inner())
         })
         .collect();
     let mut n = 0u64;
-    for (sh, (l, inc, fail)) in results.into_iter().enumerate() {
+    for (sh, (l, inc, fail, first)) in results.into_iter().enumerate() {
         n += l.evals;
         l.merge_into(ctx);
         for w in inc {
@@ -291,7 +295,12 @@ where
         if let Some(v) = fail {
             match eval(&v) {
                 CaseOutcome::Fail { key, what, replay } => ctx.fail(Failure { key, what: format!("[{} shard {} shrunk] {}", name, sh, what), replay }),
-                _ => ctx.harness_error(&format!("{} shard {}: shrunk case no longer fails (non-deterministic evaluation?)", name, sh)),
+                _ => match first {
+                    // the failure needs the history of its thread (state kept outside the objects handed to the code under
+                    // test): the case as first observed is reported, unshrunk
+                    Some(f) => ctx.fail(Failure { key: f.key, what: format!("[{} shard {}, as first observed; it does not fail again in isolation, so it depends on what the thread had processed before] {}", name, sh, f.what), replay: f.replay }),
+                    None => ctx.harness_error(&format!("{} shard {}: shrunk case no longer fails (non-deterministic evaluation?)", name, sh)),
+                },
             }
         }
     }
